@@ -107,8 +107,17 @@ def run_case(ctx, name, params):
         from .. import sched
         S = sched.Scheduler(params["seed"], r.choice(sched.Scheduler.POLICIES), expected=min(procs, len(scripts)))
         eg = lambda c: S.gate("obj_enter")
+    iv_mode = r.random() < 0.15
+    prm_iv = None
+    if iv_mode:
+        # parameters declared by an initial value only: their search interval is [0.5, 1.5] x initial_value (gen_vector's rule)
+        ivs = [r.choice([1.0, 10.0, 0.02, 1234.5, r.uniform(0.5, 50)]) for _ in range(n)]
+        bxs = [[0.5 * v, 1.5 * v] for v in ivs]
+        mids[:] = [lb + (ub - lb) / 2 for lb, ub in bxs]
+        prm_iv = [{"name": "x%d" % i, "initial_value": v} for i, v in enumerate(ivs)]
+        ctx.count("cases_with_parameters_declared_by_initial_value_only")
     p = hooks.make_problem(n=n, m=1, bounds=bxs, fn=fn, cons=cons, script=script, entry_gate=eg,
-                           criteria=["maximize" if maximize else "minimize"])
+                           criteria=["maximize" if maximize else "minimize"], params=prm_iv)
     vrng.install(vrng.SeededRandom(params["seed"]))
     alg = DummyAlgorithm(p)
     alg.options["max_processes"] = procs
@@ -142,7 +151,14 @@ def run_case(ctx, name, params):
         ctx.count("warmup_batches")
         del p.failed[:]
         del p.calls[:]
-    if r.random() < 0.3:
+    if iv_mode and r.random() < 0.6:
+        # warm restart: the initial values are moved in place; the search interval follows them
+        for q_ in p.parameters:
+            q_["initial_value"] = q_["initial_value"] * r.choice([0.01, 100.0, 3.0, 0.2])
+        bxs = [[0.5 * q_["initial_value"], 1.5 * q_["initial_value"]] for q_ in p.parameters]
+        mids[:] = [lb + (ub - lb) / 2 for lb, ub in bxs]
+        ctx.count("batches_after_initial_values_moved")
+    elif not iv_mode and r.random() < 0.3:
         # the search region is re-declared after the algorithm (and its evaluator/job) was built: either the bounds are edited
         # in place or the problem gets a new parameter list; replacements are sampled "inside the bounds" -- the declared ones
         nb = gen.boxes(r, n, r.choice(["unit", "mixed", "neg", "asym", "offset"]))
